@@ -7,7 +7,7 @@
         octets the list reader returns and a state representing the new suffix;
         nothing is assumed outside the precondition) the decoder returns the same
         result and leaves the reader at the same place. *)
-From RL Require Import Model.Decode Model.Reader Proofs.ReaderParam Proofs.Totality.
+From RL Require Import Model.Decode Model.Reader Proofs.ReaderParam Proofs.Totality Proofs.PosReader.
 
 Theorem C02_no_contract_violation : forall o b, bytes_ok b = true ->
   m_decode o b <> UB /\ (forall k, m_decode o b <> Panic k) /\ m_decode o b <> OutOfFuel.
@@ -33,6 +33,19 @@ Theorem C02_type_parametric : forall I (C : Conforms I) t r,
                grun I (decode_avp t) r = Val (fst x, r') /\ repr C r' = snd x.
 Proof. exact type_any_reader. Qed.
 
+(** a reader with a different representation (shared buffer + position + end, unchecked reads
+    that check nothing) conforms, hence decodes identically *)
+Theorem C02_pos_reader : forall o (r : pr), bytes_ok (p_repr r) = true ->
+  exists x r', m_decode o (p_repr r) = Val x /\
+               grun PosReader (msg_read o) r = Val (fst x, r') /\ p_repr r' = snd x.
+Proof. intros o r B. exact (decode_any_reader PosReader PosReader_conforms o r B). Qed.
+
+Example C02_pos_reader_runs :
+  omap fst (grun PosReader (msg_read strict_opts)
+        {| p_data := [9;9; 19;32;0;20; 0;1;0;2;0;3;0;4; 1;8;0;0;0;0;0;6; 7;7]; p_pos := 2; p_end := 22 |})
+  = omap fst (m_decode strict_opts [19;32;0;20; 0;1;0;2;0;3;0;4; 1;8;0;0;0;0;0;6]).
+Proof. vm_compute. reflexivity. Qed.
+
 (** non-vacuity: [Conforms] is inhabited *)
 Example C02_conforms_inhabited : Conforms ListReader.
 Proof. exact ListReader_conforms. Qed.
@@ -42,3 +55,4 @@ Print Assumptions C02_program_parametric.
 Print Assumptions C02_reader_parametric.
 Print Assumptions C02_avps_parametric.
 Print Assumptions C02_type_parametric.
+Print Assumptions C02_pos_reader.
